@@ -1228,7 +1228,7 @@ def offending_lines(ev, v, ctx=3):
     return []
 
 
-def shrink_source(b, sc, src, opt, argv, asan, budget=40):
+def shrink_source(b, sc, src, opt, argv, asan, budget=40, head=None):
     """greedy removal of statement blocks (a line with its deeper-indented followers) keeping 'violates the property'"""
     state = {"n": 0}
 
@@ -1245,7 +1245,7 @@ def shrink_source(b, sc, src, opt, argv, asan, budget=40):
             return False
         return cl != "ok" or not py_balanced(parse_ledger(base + ".led"))
     lines = src.split("\n")
-    nhead = HEAD.count("\n")
+    nhead = (head if head is not None else HEAD).count("\n")
     progress = True
     while progress and state["n"] < budget:
         progress = False
@@ -1432,8 +1432,8 @@ def main():
             elif j.stream in ("A", "M"):
                 if shrunk < 3:
                     shrunk += 1
-                    src = shrink_source(b, sc, j.src, j.opt, argv, j.asan, budget=40 if quick else 120)
-                kinds = sorted(set(re.findall(r"(Solange|Für jede[nrs]?|Wiederhole|verlasse die Schleife|fahre mit der Schleife fort|gib |verkettet|falls|Speichere|an der Stelle| von | als Variable| und | oder )", src[len(HEAD):])))
+                    src = shrink_source(b, sc, j.src, j.opt, argv, j.asan, budget=40 if quick else 120, head=MHEAD if j.stream == "M" else HEAD)
+                kinds = sorted(set(re.findall(r"(Solange|Für jede[nrs]?|Wiederhole|verlasse die Schleife|fahre mit der Schleife fort|gib |verkettet|falls|Speichere|an der Stelle| von | als Variable| und | oder )", src[len(MHEAD if j.stream == "M" else HEAD):])))
                 key = "stream=%s outcome=%s first=%s constructs=%s opt=%d" % (j.stream, cl, v[2] if v[0] == "X" else ("leak" if v[0] == "K" else "-"), ",".join(x.strip() for x in kinds), j.opt)
             ck.violation(key, bad, dict(source=src, opt=j.opt, argv=argv, asan=j.asan, ledger_verdict=verdict_text(v), offending_ledger_lines=offending_lines(ev, v),
                                         how="kddp kompiliere prog.ddp -o prog.o -O %d; link with harness/c/shim.c (--wrap=ddp_reallocate)%s; DDP_LEDGER=ledger ./prog %s" % (j.opt, " and the ASan runtime" if j.asan else "", " ".join(argv)),
